@@ -161,6 +161,9 @@ class Evaluator:
                 if v is TOP:
                     raise Unfoldable(d)
                 return v
+            # unbound read-only string methods used as values (`str.startswith` in a dispatch table)
+            if d in ('str.startswith', 'str.endswith', 'str.upper', 'str.lower', 'str.strip', 'str.isdigit', 'str.__contains__', 'str.__eq__'):
+                return getattr(str, e.attr)
             # attributes of values the interpreter holds: bound read-only methods of containers (as key functions), fields of a caught exception
             try:
                 base = self.ev(e.value, env)
@@ -344,6 +347,8 @@ class Evaluator:
             lf = env[d]
             self.budget -= 5
             return run_function(lf.fdef, ([lf.bound] if lf.bound is not None else []) + args, kwargs, env=lf.scope, budget=max(0, self.budget), call_hook=self.call_hook)
+        if isinstance(e.func, ast.Name) and type(env.get(e.func.id)).__name__ in ('method_descriptor', 'wrapper_descriptor') and getattr(env[e.func.id], '__objclass__', None) is str:
+            return env[e.func.id](*args, **kwargs)          # a string method picked from a table and called on its operand
         if isinstance(e.func, ast.Name) and isinstance(env.get(e.func.id), LocalFn):
             lf = env[e.func.id]
             self.budget -= 5
